@@ -17,6 +17,9 @@ CONSTANTS
   MaxCalls = 3
   NDuties = 2
   SlotGaps = {1}
+  MaxOpen = 1
+  MaxInFlight = 1
+  InitCfgs <- AllCfgs
   LaterAllChoices = {{1}}
   LaterVersions = {"deneb"}
   LaterOutcomes = {"full"}
